@@ -76,8 +76,11 @@ func (a *HMACAuth) Verify(r *http.Request, requestPath string, body []byte) erro
 		return ErrUnauthorized
 	}
 	t := time.Unix(ts, 0).UTC()
+	// One clock read decides both the tolerance window and the nonce cache
+	// expiry, so a replay cannot pass the first and miss the second.
+	checkedAt := now().UTC()
 	if a.Tolerance > 0 {
-		d := now().UTC().Sub(t)
+		d := checkedAt.Sub(t)
 		if d < -a.Tolerance || d > a.Tolerance {
 			return ErrUnauthorized
 		}
@@ -88,7 +91,7 @@ func (a *HMACAuth) Verify(r *http.Request, requestPath string, body []byte) erro
 	} else {
 		a.nonce.setNow(now)
 	}
-	if !a.nonce.seenOnce(nonce, t.Add(a.Tolerance)) {
+	if !a.nonce.seenOnceAt(checkedAt, nonce, t.Add(a.Tolerance)) {
 		return ErrUnauthorized
 	}
 
@@ -163,6 +166,13 @@ func (c *nonceCache) setNow(now func() time.Time) {
 }
 
 func (c *nonceCache) seenOnce(nonce string, expiresAt time.Time) bool {
+	return c.seenOnceAt(time.Time{}, nonce, expiresAt)
+}
+
+// seenOnceAt reports whether nonce is new at instant now and records it until
+// expiresAt inclusive (the tolerance check accepts a timestamp up to and
+// including that instant). A zero now reads the cache's clock.
+func (c *nonceCache) seenOnceAt(now time.Time, nonce string, expiresAt time.Time) bool {
 	if nonce == "" {
 		return false
 	}
@@ -170,15 +180,19 @@ func (c *nonceCache) seenOnce(nonce string, expiresAt time.Time) bool {
 	c.mu.Lock()
 	defer c.mu.Unlock()
 
+	if now.IsZero() {
+		now = c.now()
+	}
+	now = now.UTC()
+
 	// Opportunistic cleanup.
-	now := c.now().UTC()
 	for k, exp := range c.m {
-		if !now.Before(exp) {
+		if now.After(exp) {
 			delete(c.m, k)
 		}
 	}
 
-	if exp, ok := c.m[nonce]; ok && now.Before(exp) {
+	if exp, ok := c.m[nonce]; ok && !now.After(exp) {
 		return false
 	}
 	c.m[nonce] = expiresAt.UTC()
